@@ -90,3 +90,17 @@ package xreq
 //@   before select#1 assert selwaits(s.closeQ)
 //@
 // ---- end generated wake-on-close contracts ----
+// ---- generated default contracts (tools/gen_default_contracts.py) ----
+//@ func NewProtocol
+//@   ensures cast("*socket", result).closed == false
+//@   ensures cast("*socket", result).recvQ != nil && cap(cast("*socket", result).recvQ) == cast("*socket", result).recvQLen
+//@   ensures cast("*socket", result).sendQ != nil && cap(cast("*socket", result).sendQ) == cast("*socket", result).sendQLen
+//@   ensures cast("*socket", result).closeQ != nil && !closed(cast("*socket", result).closeQ)
+//@   ensures cast("*socket", result).sizeQ != nil && !closed(cast("*socket", result).sizeQ)
+//@   ensures cast("*socket", result).recvExpire == 0
+//@   ensures cast("*socket", result).sendExpire == 0
+//@   ensures cast("*socket", result).sendQLen == 128
+//@   ensures cast("*socket", result).recvQLen == 128
+//@   ensures cast("*socket", result).bestEffort == false
+//@
+// ---- end generated default contracts ----
